@@ -57,7 +57,7 @@ def guarded(part, label, info, fn, path, expect, sig, pre_existing):
     part.outcome("outcome", ":".join(sig.split(":")[:3]).split(",")[0] + " -> " + name)
     if name not in expect:
         part.violation("exception-type", f"{sig}:raises-{name}-expected-{'/'.join(sorted(expect))}", info, f"{label}: outcome {name} ({exc!r}), expected {sorted(expect)}")
-    unclosed = [f for f in op.files if not f.closed]
+    unclosed = op.left_open  # (recorded by OpenPatch before it cleans up)
     if unclosed:
         part.violation("closed", f"{sig}:file-left-open", info, f"{label}: output file not closed after {name}")
     return exc, rec, op
@@ -289,11 +289,12 @@ def write_fault_worker(chunk, seed, tier):
             if cap < n:
                 part.cov[f"write_cap_hit:{name}:{kind}"] = cap
             part.cov[f"writes:{name}:{kind}"] = n
-            faults = [(k, False) for k in range(1, cap + 1)] + [(k, True) for k in sorted({1, 2, cap}) if 1 <= k <= cap]  # (write index, message-less exception)
+            # (write index, kind of exception): an OSError at every write; at the first, second and last write also an exception without arguments and a DumpError
+            faults = [(k, False) for k in range(1, cap + 1)] + [(k, kind) for k in sorted({1, 2, cap}) if 1 <= k <= cap for kind in (True, "DumpError")]
             for k, bare in faults:
                 part.count()
                 part.nontrivial((name, kind, k, bare))
-                info = {"format": name, "operation": kind, "fail_at_write": k, "writes_in_fault_free_run": n, **({"exception": "without arguments"} if bare else {})}
+                info = {"format": name, "operation": kind, "fail_at_write": k, "writes_in_fault_free_run": n, **({"exception": "without arguments" if bare is True else bare} if bare else {})}
                 if len(part.samples) < 1 and k == 2:
                     part.sample(info)
                 with faultio.OpenPatch(fail_at=k, bare=bare) as op, warnings.catch_warnings():
@@ -307,7 +308,7 @@ def write_fault_worker(chunk, seed, tier):
                 part.outcome("write-fault", got)
                 if got != want:
                     part.violation("exception-type", f"{name}:{kind}:write-fault:raises-{got}", info, f"{name} {kind}: OSError injected at write {k}/{n} surfaced as {got} ({exc!r}), expected {want}")
-                if any(not f.closed for f in op.files):
+                if op.left_open:
                     part.violation("closed", f"{name}:{kind}:write-fault:file-left-open", info, f"{name} {kind}: file not closed after a fault at write {k}")
     finally:
         shutil.rmtree(tmp, ignore_errors=True)
@@ -394,7 +395,7 @@ def run(ctx):
     ctx.rule = (
         "full products: every non-empty subset of each format's required attributes set to None x allow_changes x target {absent, pre-existing with sentinel bytes} for all dump_one and dump_many formats; "
         "every prepare_dump rejection reason x applicable targets; unknown/unsupported format selections; dump_many with the faulty frame at index 0/1/2, no fault, empty sequence x list/generator; "
-        "an OSError injected at the k-th write call for every k of the fault-free run (cap 200; at the first, second and last write also an exception without arguments) for every format's dump_one, dump_many and both input writers; write_input failure reasons. "
+        "an OSError injected at the k-th write call for every k of the fault-free run (cap 200; at the first, second and last write also an exception without arguments and a DumpError) for every format's dump_one, dump_many and both input writers; write_input failure reasons. "
         "Each execution is judged on exception type, bytes of the pre-existing target, audit-hook record of opens for writing, and closure of every file object opened by iodata.api."
     )
     ctx.assumptions += ["iodata.api.open is replaced from outside by a counting/faulting wrapper (no source hook)", "objects are the default C02 case of each format with 3 atoms"]
